@@ -11,6 +11,7 @@ type StressRes struct {
 	StartOrder []int                         `json:"start_order,omitempty"`
 	Serials    map[string][]int64            `json:"serials,omitempty"`     // op key -> distinct serials observed
 	CtxSerials map[string]map[string][]int64 `json:"ctx_serials,omitempty"` // service -> ctx label -> serials
+	CtxReach   map[string][]int64            `json:"ctx_reach,omitempty"`   // ctx label -> identities reachable from anything handed out in that context
 	Counts     map[string]int64              `json:"counts,omitempty"`
 	OKOps      map[string]int                `json:"ok_ops,omitempty"` // op key -> successful executions
 }
